@@ -27,6 +27,7 @@ def run(ctx):
     ctx.rule("R09c", "ParameterScenario.get_parset: baseline pinned strictly before the first overwrite year, overwrites and function suspension from that year on, one threshold")
     ctx.each(c06.scenario_partition, ctx, repo, "R09c")
     ctx.each(r09d, ctx, repo, T)
+    ctx.each(r09e, ctx, repo)
     ctx.rule("R01d", "update(ti) reads step ti-1 and writes step ti (see C01); shared here because a read at ti inside update() would let a flow act one step early")
     ctx.each(c01.r01d, ctx, repo, T)
 
@@ -197,3 +198,30 @@ def r09d(ctx, repo, T):
                 kind = "a slice over time" if isinstance(tix, ast.Slice) else "index `%s`" % txt
                 ctx.fail("R09d", fi, stmt, "per-step method %s %s a model array at %s: a value of a later (or arbitrary) step can influence the step being computed" % (fi.qualname, "writes" if is_store else "reads", kind))
     ctx.require(n >= 40, "R09d: fewer indexed accesses examined (%d) than confirmed (40)" % n)
+
+
+def r09e(ctx, repo):
+    ctx.rule("R09e", "a scenario touches only what it names: Parameter.smooth changes nothing but the series of the populations it is given (no attribute of the Parameter itself is stored; the series edited is self.ts[pop] for pop in the requested populations), and the interpolation method shared by all populations of a parameter is assigned only in Parameter.__init__ (and by the migration of old projects)")
+    fi = repo.func("parameters", "Parameter.smooth")
+    me = K.self_name(fi)
+    stores = [s for s, t, k, v in astq.stores(fi.node) if k in ("assign", "aug") and isinstance(astq.strip_subs(t), ast.Attribute) and astq.is_name(astq.strip_subs(t).value, me)]
+    ctx.check(not stores, "R09e", fi, stores[0] if stores else fi.node, "Parameter.smooth stores nothing on the parameter itself", "`%s` changes an attribute of the whole parameter inside smooth(pop_names=...): ParameterScenario smooths only the overwritten population, so every other population of the parameter changes too - before the scenario's first year" % (norm(stores[0])[:80] if stores else ""))
+    loops = [l for l in own_nodes(fi.node) if isinstance(l, ast.For) and ast.unparse(l.iter) == "pop_names" and isinstance(l.target, ast.Name)]
+    ok = len(loops) == 1
+    if ok:
+        p = loops[0].target.id
+        tsb = [s for s in loops[0].body if isinstance(s, ast.Assign) and ast.unparse(s.value) == "%s.ts[%s]" % (me, p)]
+        ok = len(tsb) == 1
+        if ok:
+            tsn = ast.unparse(tsb[0].targets[0])
+            muts = [c for c in ast.walk(loops[0]) if isinstance(c, ast.Call) and isinstance(c.func, ast.Attribute) and c.func.attr in ("insert", "remove", "remove_between", "remove_after", "remove_before") ]
+            ok = bool(muts) and all(ast.unparse(c.func.value) == tsn for c in muts)
+    ctx.check(ok, "R09e", fi, loops[0] if loops else fi.node, "only the requested populations' series are edited", "Parameter.smooth edits a series other than self.ts[pop] for pop in pop_names", stmt_text="smooth-scope")
+    n = 0
+    for f in repo.all_functions():
+        for s, t, k, v in astq.stores(f.node):
+            if isinstance(t, ast.Attribute) and t.attr == "_interpolation_method":
+                n += 1
+                ok = f.qualname == "Parameter.__init__" or f.module.name.endswith("migration")
+                ctx.check(ok, "R09e", f, s, "interpolation method set at construction / migration only", "`%s` in %s changes the interpolation method shared by every population of the parameter: values of populations nobody asked to change are re-interpolated over the whole run" % (norm(s)[:70], f.qualname))
+    ctx.require(n >= 1, "R09e: no assignment of _interpolation_method found")
